@@ -163,32 +163,11 @@ Definition spec_C14 (c : c14case) (obs : list Z) : bool :=
   end.
 
 (* ------------------------------------------------------------------------------------------ *)
-(* classes of inputs on which the unchanged tree is known to violate the property
-   (open findings of known_findings.d/C14.json), each as narrow as the defect *)
+(* classes of inputs on which the current tree is known to violate the property (open findings of
+   known_findings.d/C14.json), each as narrow as the defect.  Classes 1-4 (null on a nullable Json
+   field, empty verifying key, keyword / digit-first aliases, json selector with a default) were
+   repaired by 8ac9d00, b4e6381, 601cdc3: their witnesses are ordinary cases now and must pass. *)
 
-(* 1: a nullable Json field is given null (literal or parameter): as_string().unwrap() *)
-Definition k1_mutation (m : mutation) : bool :=
-  existsb (fun rv => match fkind_of (m_decl m) (fst rv) with
-                     | Some (FUser FJson Nullable) =>
-                         match snd rv with
-                         | MNull => true
-                         | MVar x => match lookup x (m_params m) with Some PNull => true | _ => false end
-                         | _ => false end
-                     | _ => false end) (m_vals m).
-(* 2: an empty verifying key reaches import_verifying_key *)
-Definition k2_row (r : row) : bool :=
-  match r with
-  | RowNode ee js k _ _ _ => negb ee && (match js with JNone | JObject => true | _ => false end)
-                             && match k with [] => true | _ => false end
-  | RowEdge el ll k _ sl _ => negb (N.ltb max_edge_length (16 + el + ll + 16 + 8 + nlen k + sl)%N)
-                              && negb (N.eqb el 0) && negb (N.eqb ll 0) && match k with [] => true | _ => false end
-  | RowDeletion k _ _ _ => match k with [] => true | _ => false end
-  end.
-
-Fixpoint aliases_of (c : cfield) : list ident :=
-  match c with CSub key _ _ subs => key :: flat_map aliases_of subs | _ => [] end.
-Fixpoint has_json_default (c : cfield) : bool :=
-  match c with CJsonSel d => d | CSub _ _ _ subs => existsb has_json_default subs | _ => false end.
 Fixpoint has_nn (c : cfield) : bool :=
   match c with CSub _ _ nl subs => negb nl || existsb has_nn subs | _ => false end.
 Fixpoint nn_nested (c : cfield) : bool :=
@@ -196,9 +175,8 @@ Fixpoint nn_nested (c : cfield) : bool :=
   | CSub _ _ nl subs => (negb nl && existsb has_nn subs) || existsb nn_nested subs
   | _ => false end.
 
-Definition k3_entity (c : centity) : bool :=
-  negb (forallb alias_ok (ce_alias c :: flat_map aliases_of (ce_fields c))).
-Definition k4_entity (c : centity) : bool := existsb has_json_default (ce_fields c).
+(* 5: blank search text; 6: selection paths beyond the engine's parser stack;
+   7: nested non-nullable references (each level is compiled twice) *)
 Definition k5_entity (c : centity) : bool := negb (search_ok c).
 Definition k6_entity (c : centity) : bool := negb (depth_ok c).
 Definition k7_entity (c : centity) : bool := existsb nn_nested (ce_fields c).
@@ -207,21 +185,15 @@ Definition flag (k : Z) (b : bool) : list Z := if b then [k] else [].
 
 Definition known_C14 (c : c14case) : list Z :=
   match c with
-  | CMut m => flag 1 (k1_mutation m)
-  | CMutSeq ms => flag 1 (existsb k1_mutation ms)
-  | CKey k _ => flag 2 (match k with [] => true | _ => false end)
-  | CRow r => flag 2 (k2_row r)
-  | CRowSeq rs => flag 2 (existsb k2_row rs)
   | CQuery dm qs =>
       match resolve_query dm qs [] with
-      | Some cs => flag 3 (existsb k3_entity cs) ++ flag 4 (existsb k4_entity cs)
-                   ++ flag 5 (existsb k5_entity cs) ++ flag 6 (existsb k6_entity cs)
+      | Some cs => flag 5 (existsb k5_entity cs) ++ flag 6 (existsb k6_entity cs)
       | None => [] end
   | CQSize dm q =>
       match resolve_entity dm q with
-      | Some ce => flag 4 (k4_entity ce) ++ flag 7 (k7_entity ce)
+      | Some ce => flag 7 (k7_entity ce)
       | None => [] end
-  | CObs _ => []
+  | _ => []
   end.
 
 Definition eval_C14 (c : c14case) (obs : list Z) : list Z :=
